@@ -35,7 +35,8 @@ RULE = (
     "trailing punctuation, empty words from adjacent delimiters); (c) plain words. Subnet lists: 1..4 of IPv4 / IPv6 / mixed, "
     "nested and overlapping prefixes (/0 /8 /24 /30 /31 /32, /0 /32 /64 /127 /128), duplicates, host-bit-set forms, or -4 / -6 / -4 -6; "
     "options: the cross product of {--unique | --line | neither} x --show-cidr x --show-networks x --exclude-hosts, "
-    "word delimiter in {\\s+ (default), ',', '[,\\s]+', ';'}; plus malformed invocations (no -s, -s with -4, empty -s, bad subnet, "
+    "word delimiter in {\\s+ (default), ',', '[,\\s]+', ';'}, lines joined by \\n, \\r\\n, \\r or another str.splitlines boundary "
+    "(VT, FF, FS, NEL, U+2028), occasionally a non-ASCII \\s character between words; plus malformed invocations (no -s, -s with -4, empty -s, bad subnet, "
     "--line with --show-cidr). macgrep: words in every spelling of macaddress (dash, colon, dotted quad of 16 bits, bare hex; 48 and 64 bit; "
     "mixed case), near misses (one digit short/long, wrong separator, 'g'), regex lists of 1..3 items (anchored, separators in any style, "
     "alternations, '.'), --unique / --line. parent/child/branch: small indentation configs (3 levels, duplicates, blank lines) and brace "
@@ -43,7 +44,7 @@ RULE = (
     "-o raw_text / original (branch) / json, one or two files. diff: pairs of such configs x {diff, rollback} x every syntax, always "
     "including a hostname change (nxos / iosxr treat it as idempotent, ios does not). "
     "non-trivial = the expected output is non-empty and differs from the unfiltered input (greps) or the API result is non-empty (sub-commands). "
-    "Not generated: scoped IPv6 ('%eth0', rejected by IPv6Obj, accepted by the stdlib), IPv6 texts longer than 43 characters (C11 finding F32), "
+    "Not generated: scoped IPv6 ('%eth0', rejected by IPv6Obj, accepted by the stdlib), "
     "invalid regexes, arguments beginning with '-', NUL / newline inside an argument, non-UTF-8 files."
 )
 LEVEL_TEXT = (
@@ -415,6 +416,8 @@ def find_argv(case, paths):
         argv += ["-s", case["syntax"]]
     if case["output"] is not None:
         argv += ["-o", case["output"]]
+    if case.get("all_children"):
+        argv.append("-A")          # accepted by `parent`, stored, never used
     argv += [paths[n] for n in sorted(paths)]
     return argv
 
@@ -711,7 +714,10 @@ def ip_text(rng, nets, delim):
         if rng.random() < 0.1:
             line += rng.choice(sep)
         lines.append(line)
-    text = rng.choice(["\n", "\n", "\r\n"]).join(lines)
+    nl = rng.choice(["\n", "\n", "\n", "\r\n", "\r\n", "\r", "\x0b", "\x0c", "\x1c", "\x85", "\u2028"])   # str.splitlines boundaries
+    text = nl.join(lines)
+    if rng.random() < 0.08:
+        text = text.replace(" ", rng.choice(["\u00a0", "\u2003", "\x1f"]), 1)                              # other \s characters
     if rng.random() < 0.7:
         text += "\n"
     return text
@@ -751,11 +757,7 @@ def gen_ipgrep(rng):
     if "l" in fs and ("c" in fs or "n" in fs) and rng.random() < 0.85:
         fs = fs.replace("c", "").replace("n", "")      # --line refuses --show-cidr / --show-networks
     flags += fs
-    while True:
-        text = ip_text(rng, nets_for_words, delim)
-        # C11 finding F32 (IPv6Obj refuses a text longer than 43 characters before strip()) is not C18's business
-        if not any(":" in w and len(w) > 43 for w in re.split(delim or r"\s+", text)):
-            break
+    text = ip_text(rng, nets_for_words, delim)
     return {"kind": "ipgrep", "text": text, "delim": delim, "subnets": subnets, "flags": flags}
 
 
@@ -924,7 +926,8 @@ def gen_find(rng):
         output = rng.choice([None, None, "raw_text"])
     if rng.random() < 0.06:
         output = "json"
-    return {"kind": "find", "cmd": cmd, "configs": configs, "terms": terms, "delimiter": delimiter, "syntax": syntax, "output": output}
+    return {"kind": "find", "cmd": cmd, "configs": configs, "terms": terms, "delimiter": delimiter, "syntax": syntax, "output": output,
+            "all_children": cmd == "parent" and rng.random() < 0.3}
 
 
 def gen_diff(rng):
@@ -949,7 +952,7 @@ def gen_diff(rng):
 
 
 def cases(rng, tier):
-    n = {"quick": 1, "thorough": 12, "search": 2}[tier]
+    n = {"quick": 1, "thorough": 60, "search": 2}[tier]
     if tier != "search":
         text = "h 10.0.0.1 10.0.0.1/24 x 10.0.0.0/24 10.0.0.255 10.0.1.0 999.1.1.1 10.0.0.1/33\n::1 fd01::5/64 fd01::/64 10.0.1.1 10.0.0.1\n"
         for fl in IP_FLAG_SETS:
